@@ -61,6 +61,7 @@ void SPxSteepPR<R>::load(SPxSolverBase<R>* base)
 template <class R>
 void SPxSteepPR<R>::setType(typename SPxSolverBase<R>::Type type)
 {
+   workVec.setTolerances(this->_tolerances);
    workRhs.setTolerances(this->_tolerances);
 
    setupWeights(type);
